@@ -1,8 +1,405 @@
-//! C19 — see /verif/DESIGN.md §3.
-use vf_core::{Args, Ctx};
+//! C19 — IFT patch selection follows the specified intersection and grouping
+//! rules. See /verif/DESIGN.md §3.
+//!
+//! abs.rs    abstract mapping tables / fonts / patches + byte encoders
+//! model.rs  reference model (spec transcription) over the abstract values
+//! gen.rs    generators (tables, definitions, supersets, malformations)
+//! oracle.rs real library under the monitors + comparison with the model
+mod abs;
+mod gen;
+mod model;
+mod oracle;
 
-pub const REPLAY: Option<fn(&mut Ctx, &Args, &serde_json::Value, Option<&[u8]>)> = None;
+use abs::*;
+use model::*;
+use oracle::*;
+use serde_json::json;
+use std::collections::{BTreeMap, BTreeSet};
+use vf_core::{Args, Ctx, Digest, PanicPolicy, Rng};
+
+pub const REPLAY: Option<fn(&mut Ctx, &Args, &serde_json::Value, Option<&[u8]>)> = Some(replay);
+
+fn setup(ctx: &mut Ctx) {
+    // semantic property: library panics on generated tables are refutations
+    // unless they are overflow/debug-assert panics (those are C20's).
+    ctx.policy = PanicPolicy::Totality;
+    ctx.rule = "non-trivial case = (mapping tables, subset definition) with >= 2 mapping entries in total whose offered set is neither empty nor equal to the set offered for SubsetDefinition::all(); digest over table bytes + cmap + definition".into();
+    ctx.assumptions = vec![
+        "the reference model transcribes the intersection / format-1 / id / URI-template / selection rules as the specification text is quoted in the code comments of patchmap.rs, patch_group.rs and uri_templates.rs (the spec itself is not available offline)".into(),
+        "crate-private PatchUri fields (application bit index, IntersectionInfo) are observed through the derived Debug output; design-space sizes from Debug are compared with tolerance 2e-3 and exactly through patch selection".into(),
+        "format-1 feature records that are not sorted by tag are only checked by the metamorphic oracles (monotone, subset of all), not for equality".into(),
+        "extension loop uses harness-built patches: glyph keyed patches carrying no glyph data, table keyed patches replacing the mapping table (stored-block brotli) or doing nothing".into(),
+        "among fully invalidating candidates of two different tables with identical intersection size and entry order either may be chosen".into(),
+    ];
+}
 
 pub fn run(ctx: &mut Ctx, _args: &Args) {
-    ctx.rule = "stub".into();
+    setup(ctx);
+    stage_exhaustive(ctx);
+    let n = ctx.tier.pick(60_000, 1_500_000);
+    for i in 0..n {
+        if ctx.mine(i) {
+            random_item(ctx, i);
+        }
+    }
+    ctx.extra.insert("random_items_total".into(), json!(n));
+}
+
+fn replay(ctx: &mut Ctx, _args: &Args, rec: &serde_json::Value, _bytes: Option<&[u8]>) {
+    setup(ctx);
+    let d = &rec["detail"]["case"];
+    let stage = d["stage"].as_str().unwrap_or("");
+    let item = d["item"].as_u64().unwrap_or(0) as usize;
+    match stage {
+        "rand" | "rand-loop" => random_item(ctx, item),
+        "exh" => {
+            let defs = exhaustive_defs();
+            init_subset(&defs);
+            exhaustive_table(ctx, item, &defs)
+        }
+        _ => eprintln!("vf-c19: replay record has no stage/item"),
+    }
+}
+
+// ------------------------------------------------------------------ evidence helpers
+
+fn record_font(ctx: &mut Ctx, f: &AbsFont) {
+    for which in 0..2 {
+        let name = if which == 0 { "IFT" } else { "IFTX" };
+        match f.table(which) {
+            None => {}
+            Some(AbsTable::F1(t)) => {
+                ctx.count(&format!("table:{}:format1", name), 1);
+                ctx.count(&format!("table:format1:patch-format-{}", t.patch_format), 1);
+                if t.max_entry >= 256 {
+                    ctx.count("table:format1:u16-entries", 1);
+                }
+                if let Some(fm) = &t.feature_map {
+                    ctx.count("table:format1:feature-map", 1);
+                    ctx.count("table:format1:feature-records", fm.len() as u64);
+                }
+                if !t.applied.is_empty() {
+                    ctx.count("table:format1:with-applied-bits", 1);
+                }
+                ctx.label("table_shapes", &format!("f1:w{}:fm{}", t.width(), t.feature_map.is_some() as u8));
+            }
+            Some(AbsTable::F2(t)) => {
+                ctx.count(&format!("table:{}:format2", name), 1);
+                ctx.count("entries:format2", t.entries.len() as u64);
+                if t.string_ids {
+                    ctx.count("table:format2:string-ids", 1);
+                }
+                ctx.count(&format!("table:format2:default-format-{}", t.default_format), 1);
+                for e in &t.entries {
+                    if let Some((conj, idx)) = &e.children {
+                        ctx.count(if idx.is_empty() { "entry:children:empty-list" } else if *conj { "entry:children:conjunctive" } else { "entry:children:disjunctive" }, 1);
+                    }
+                    if e.ignored {
+                        ctx.count("entry:ignored", 1);
+                    }
+                    match &e.id {
+                        IdSpec::None => {}
+                        IdSpec::Delta(d) => ctx.count(if *d < 0 { "entry:id-delta:negative" } else { "entry:id-delta:non-negative" }, 1),
+                        IdSpec::Str(_) => ctx.count("entry:id-string", 1),
+                    }
+                    if let Some(f) = e.patch_format {
+                        ctx.count(&format!("entry:patch-format-{}", f), 1);
+                    }
+                    match &e.cps {
+                        CpSpec::Absent => ctx.count("entry:codepoints:absent", 1),
+                        CpSpec::Present { kind, rel, enc, .. } => {
+                            ctx.count(&format!("entry:codepoints:bias-kind-{}", kind), 1);
+                            ctx.label("sparse_bit_set_shapes", &format!("bf{}:h+{}:fill{}:n{}", enc.bf, enc.extra_height, enc.fill as u8, rel.len().min(9)));
+                        }
+                    }
+                    if let Some((f, s)) = &e.fds {
+                        if !f.is_empty() {
+                            ctx.count("entry:features", 1);
+                        }
+                        if !s.is_empty() {
+                            ctx.count("entry:design-space", 1);
+                        }
+                    }
+                }
+                ctx.label("table_shapes", &format!("f2:n{}:str{}", t.entries.len().min(8), t.string_ids as u8));
+            }
+        }
+    }
+}
+
+fn case_sample(f: &AbsFont, d: &Def, offered: usize, of_all: usize) -> serde_json::Value {
+    json!({
+        "ift": f.ift.as_ref().map(|t| format!("{:?}", t)),
+        "iftx": f.iftx.as_ref().map(|t| format!("{:?}", t)),
+        "def": def_json(d),
+        "offered": offered,
+        "offered_for_all": of_all,
+    })
+}
+
+// ------------------------------------------------------------------ random stage
+
+fn random_item(ctx: &mut Ctx, item: usize) {
+    let mut rng = Rng::derive(ctx.seed, "c19-rand", item as u64);
+    let case = gen::gen_case(&mut rng);
+    let font = &case.font;
+    let bytes = font.build();
+    let prep = prepare(font);
+    let exact = font_exact(font);
+    record_font(ctx, font);
+    if let Some(m) = case.malformed {
+        ctx.count(&format!("malformed:{}", m), 1);
+    }
+    if !exact {
+        ctx.count("table:format1:unsorted-feature-records", 1);
+    }
+    let id = CaseId { stage: "rand", item, font, bytes: &bytes };
+
+    let all = Def::all();
+    let model_all = candidates(font, &prep, &all);
+    let keys_all = check_intersection(ctx, &id, &model_all, exact, &all);
+    ctx.count("def:all()", 1);
+    check_selection(ctx, &id, &model_all, &all);
+
+    let n_defs = 4;
+    let mut loop_defs: Vec<Def> = vec![all.clone()];
+    for _ in 0..n_defs {
+        let d = gen::gen_def(&mut rng, &case.uni, &case.base);
+        ctx.count(&format!("def:{}", d.kind()), 1);
+        let model = candidates(font, &prep, &d);
+        let keys = check_intersection(ctx, &id, &model, exact, &d);
+        if let (Some(k), Some(ka)) = (&keys, &keys_all) {
+            check_subset(ctx, &id, "subset-of-all", k, &d, ka, &all);
+            if font.total_entries() >= 2 && !k.is_empty() && k.len() < ka.len() {
+                ctx.nontrivial(id.digest(&d));
+                ctx.sample_by_kind(
+                    &format!("offered:{}", font.table(0).or(font.table(1)).map_or("?", |t| if matches!(t, AbsTable::F1(_)) { "format1" } else { "format2" })),
+                    case_sample(font, &d, k.len(), ka.len()),
+                );
+            }
+        }
+        let g = gen::grow_def(&mut rng, &case.uni, &case.base, &d);
+        if !d.subset_of(&g) {
+            ctx.inconclusive("generator: grown definition is not a superset");
+        } else {
+            let model_g = candidates(font, &prep, &g);
+            let keys_g = check_intersection(ctx, &id, &model_g, exact, &g);
+            if let (Some(k), Some(kg)) = (&keys, &keys_g) {
+                check_subset(ctx, &id, "monotone", k, &d, kg, &g);
+                if kg.len() > k.len() {
+                    ctx.count("oracle:monotone:strictly-larger", 1);
+                }
+            }
+            if rng.bool() {
+                check_selection(ctx, &id, &model_g, &g);
+            }
+            if rng.chance(1, 3) {
+                loop_defs.push(g);
+            }
+        }
+        check_selection(ctx, &id, &model, &d);
+        loop_defs.push(d);
+    }
+    if case.malformed.is_none() {
+        // extension runs until fixpoint
+        let n_loops = 2;
+        for _ in 0..n_loops {
+            let d = rng.pick(&loop_defs).clone();
+            extension_loop(ctx, "rand-loop", item, font, &d, &mut rng);
+        }
+    }
+}
+
+// ------------------------------------------------------------------ exhaustive small space
+
+const CP_A: u32 = 0x41;
+const CP_B: u32 = 0x10000;
+const ONE: i32 = 1 << 16;
+
+fn exhaustive_defs() -> Vec<Def> {
+    let cps: Vec<CpDef> = vec![
+        CpDef { inverted: false, items: BTreeSet::new() },
+        CpDef { inverted: false, items: [CP_A].into() },
+        CpDef { inverted: false, items: [CP_B].into() },
+        CpDef { inverted: false, items: [CP_A, CP_B].into() },
+        CpDef { inverted: true, items: BTreeSet::new() },
+        CpDef { inverted: true, items: [CP_A].into() },
+    ];
+    let feats: Vec<Option<BTreeSet<T4>>> = vec![Some(BTreeSet::new()), Some([*b"liga"].into()), Some([*b"smcp"].into()), None];
+    let ds: Vec<Option<BTreeMap<T4, Vec<(i32, i32)>>>> = vec![
+        Some(BTreeMap::new()),
+        Some([(*b"wght", vec![(ONE, 2 * ONE)])].into()),     // touches the entry range [0,1] at 1.0
+        Some([(*b"wght", vec![(ONE + 1, 2 * ONE)])].into()), // one epsilon away
+        Some([(*b"wdth", vec![(0, ONE)])].into()),           // other axis
+        None,
+    ];
+    let mut out = vec![];
+    for c in &cps {
+        for f in &feats {
+            for d in &ds {
+                out.push(Def { cps: c.clone(), feats: f.clone(), design: d.clone() });
+            }
+        }
+    }
+    out
+}
+
+fn exh_entry(kind: usize, salt: usize) -> Entry2 {
+    let cp = kind & 3;
+    let feat = (kind >> 2) & 1;
+    let ds = (kind >> 3) & 1;
+    let cps = if cp == 0 {
+        CpSpec::Absent
+    } else {
+        let vals: Vec<u32> = match cp {
+            1 => vec![CP_A],
+            2 => vec![CP_B],
+            _ => vec![CP_A, CP_B],
+        };
+        let k = 1 + (salt % 3) as u8;
+        let bias = match k {
+            1 => 0,
+            2 => [0u32, 0x40, 0x41][salt / 3 % 3].min(vals[0]),
+            _ => [0u32, 0x41, vals[0]][salt / 3 % 3],
+        };
+        CpSpec::Present {
+            kind: k,
+            bias,
+            rel: vals.iter().map(|v| v - bias).collect(),
+            enc: CpEnc { bf: [2u8, 4, 8, 32][salt / 9 % 4], extra_height: (salt / 36 % 2) as u8, fill: salt / 72 % 2 == 1 },
+        }
+    };
+    let fds = if feat == 1 || ds == 1 {
+        Some((if feat == 1 { vec![*b"liga"] } else { vec![] }, if ds == 1 { vec![(*b"wght", 0, ONE)] } else { vec![] }))
+    } else if salt % 5 == 0 {
+        Some((vec![], vec![]))
+    } else {
+        None
+    };
+    Entry2 { fds, children: None, id: IdSpec::None, patch_format: None, cps, ignored: false }
+}
+
+const EXH_TABLES: usize = 16 * 16 * 16 * 7;
+
+fn exhaustive_table(ctx: &mut Ctx, n: usize, defs: &[Def]) {
+    let k0 = n % 16;
+    let k1 = n / 16 % 16;
+    let rest = n / 256;
+    let k2 = rest % 16;
+    let ch = rest / 16;
+    let salt = (n as u64).wrapping_mul(0x9E3779B97F4A7C15) as usize >> 20;
+    let mut e0 = exh_entry(k0, salt);
+    let mut e1 = exh_entry(k1, salt / 7);
+    let mut e2 = exh_entry(k2, salt / 11);
+    e0.ignored = salt % 5 == 1;
+    e1.ignored = salt % 7 == 1;
+    e2.children = match ch {
+        0 => None,
+        1 => Some((false, vec![0])),
+        2 => Some((false, vec![1])),
+        3 => Some((false, vec![0, 1])),
+        4 => Some((true, vec![0])),
+        5 => Some((true, vec![1])),
+        _ => Some((true, vec![1, 0])),
+    };
+    if salt % 3 == 0 {
+        e1.id = IdSpec::Delta((salt % 4) as i32 - 1);
+    }
+    if salt % 4 == 0 {
+        e2.patch_format = Some(1 + (salt / 4 % 3) as u8);
+    }
+    let t = Table2 {
+        compat: [n as u8; 16],
+        default_format: 1 + (n % 3) as u8,
+        template: b"//h/{id}".to_vec(),
+        string_ids: false,
+        entries: vec![e0, e1, e2],
+        field_flags: 0,
+        truncate: 0,
+        string_pad: 0,
+        string_cut: 0,
+    };
+    let font = AbsFont { num_glyphs: 2, cmap: vec![(CP_A, 1)], ift: if n % 2 == 0 { Some(AbsTable::F2(t.clone())) } else { None }, iftx: if n % 2 == 1 { Some(AbsTable::F2(t)) } else { None } };
+    let bytes = font.build();
+    let prep = prepare(&font);
+    let id = CaseId { stage: "exh", item: n, font: &font, bytes: &bytes };
+    let mut keys: Vec<Option<BTreeSet<EntKey>>> = Vec::with_capacity(defs.len());
+    let all = Def::all();
+    let model_all = candidates(&font, &prep, &all);
+    let keys_all = check_intersection(ctx, &id, &model_all, true, &all);
+    for d in defs {
+        let model = candidates(&font, &prep, d);
+        let k = check_intersection(ctx, &id, &model, true, d);
+        if let (Some(k), Some(ka)) = (&k, &keys_all) {
+            if !k.is_subset(ka) {
+                check_subset(ctx, &id, "subset-of-all", k, d, ka, &all);
+            }
+            if !k.is_empty() && k.len() < ka.len() {
+                ctx.nontrivial(id.digest(d));
+            }
+        }
+        keys.push(k);
+    }
+    ctx.count("exhaustive:tables", 1);
+    ctx.count("oracle:subset-of-all", defs.len() as u64);
+    // monotone over the whole definition lattice of this stage
+    let mut pairs = 0u64;
+    for (i, di) in defs.iter().enumerate() {
+        let Some(ki) = &keys[i] else { continue };
+        if ki.is_empty() {
+            continue;
+        }
+        for (j, dj) in defs.iter().enumerate() {
+            if i == j || !SUBSET.with(|s| s.borrow()[i * defs.len() + j]) {
+                continue;
+            }
+            let Some(kj) = &keys[j] else { continue };
+            pairs += 1;
+            if !ki.is_subset(kj) {
+                check_subset(ctx, &id, "monotone", ki, di, kj, dj);
+            }
+        }
+    }
+    ctx.count("oracle:monotone", pairs);
+    // selection on a few definitions per table
+    for j in [n % defs.len(), (n / 7) % defs.len()] {
+        let model = candidates(&font, &prep, &defs[j]);
+        check_selection(ctx, &id, &model, &defs[j]);
+    }
+    check_selection(ctx, &id, &model_all, &all);
+}
+
+thread_local! {
+    static SUBSET: std::cell::RefCell<Vec<bool>> = const { std::cell::RefCell::new(vec![]) };
+}
+
+fn init_subset(defs: &[Def]) {
+    let mut sub = vec![false; defs.len() * defs.len()];
+    for (i, a) in defs.iter().enumerate() {
+        for (j, b) in defs.iter().enumerate() {
+            sub[i * defs.len() + j] = a.subset_of(b);
+        }
+    }
+    SUBSET.with(|s| *s.borrow_mut() = sub);
+}
+
+fn stage_exhaustive(ctx: &mut Ctx) {
+    let defs = exhaustive_defs();
+    init_subset(&defs);
+    for d in &defs {
+        ctx.count(&format!("def:{}", d.kind()), 0);
+    }
+    for n in 0..EXH_TABLES {
+        if ctx.mine(n) {
+            exhaustive_table(ctx, n, &defs);
+        }
+    }
+    ctx.extra.insert(
+        "exhaustive_stage".into(),
+        json!({"tables": EXH_TABLES, "definitions_per_table": defs.len(),
+               "space": "3-entry format-2 tables: entries 0,1 over {code points: none|{A}|{B}|{A,B}} x {features: none|liga} x {design space: none|wght[0,1]}, entry 2 the same x children {none,[0],[1],[0,1]} x {disjunctive, conjunctive}; definitions: 6 code point sets (incl. inverted) x 4 feature sets (incl. all) x 5 design spaces (incl. boundary, epsilon-off, other axis, all)"}),
+    );
+    let mut h = Digest::new();
+    h.u64(EXH_TABLES as u64);
+    ctx.distinct("stages", h.finish());
 }
